@@ -28,6 +28,39 @@ def Gen.BoolOp.ofName (n : BoolOpName) : Option BoolOp := BoolOp.all.find? fun o
 namespace Simd
 variable {α : Type} {S S₂ : Nat}
 
+-- compound assignment whose scalar operand is a lane of the destination itself ------------------------------
+
+/-- `v OP= Simd::lane(k, v)`: `lane(k, v)` is a reference into `v`.  If the operator takes its scalar **by value**
+    (`scalarByRef = false`) the loop combines every lane with the value lane `k` had before the call; if it takes it
+    **by reference** the loop re-reads lane `k` of the object it is modifying in every iteration. -/
+def ipVA (L : Loop) (f : α → α → Option α) (self : Vec α S) (k : Nat) : Option (Vec α S) :=
+  match L.args with
+  | [.vec 0 ia, .scalar] =>
+    (self[k]?).bind fun s0 =>
+      loopIP S L (fun i cur => (rd cur ia i).bind fun x =>
+        (if L.scalarByRef then cur[k]? else some s0).bind fun s => f x s) self
+  | _ => none
+
+def assignVA (sem : AssignOp → α → α → Option α) (op : AssignOp) (a : Vec α S) (k : Nat) :=
+  ipVA loop_ASSIGNMENT_OP_vs (sem op) a k
+
+/-- the same for a vector of vectors: the outer loop applies the inner operator to every entry with the same scalar
+    parameter; by reference, the entry that holds lane `k` aliases inside the inner loop as well -/
+def ipVANested (L : Loop) (f : α → α → Option α) (self : Vec (Vec α S₂) S) (k : Nat) : Option (Vec (Vec α S₂) S) :=
+  match L.args with
+  | [.vec 0 ia, .scalar] =>
+    (laneNested k self).bind fun s0 =>
+      loopIP S L (fun i cur => (rd cur ia i).bind fun e =>
+        if L.scalarByRef then
+          (ixEval S i ia).bind fun idx =>
+            if idx = laneOuter k S₂ then ipVA L f e (laneInner k S₂)
+            else (laneNested k cur).bind fun s => ipVS L f e s
+        else ipVS L f e s0) self
+  | _ => none
+
+def assignVANested (sem : AssignOp → α → α → Option α) (op : AssignOp) (a : Vec (Vec α S₂) S) (k : Nat) :=
+  ipVANested loop_ASSIGNMENT_OP_vs (sem op) a k
+
 -- mask / maskOr / maskAnd (defaults.hh) ------------------------------------------------------------------
 
 /-- `Simd::mask(v)` for a vector that is not a mask: `v OP Copy(Scalar<Copy>(0))`, a vector-vector comparison with
